@@ -61,6 +61,24 @@ def build_cases(tier: str) -> list[dict]:
                 for enc in encs:
                     cases.append({"config": "A", "content": content, "encoding": enc, "spelling": sp,
                                   "final_newline": variant.endswith("\n"), "faults": [], "read_fault": None})
+    # configuration A, large files: beyond one 8 KiB and one 64 KiB read buffer, > 1000 lines, a very long line, with
+    # the error (if any) at the very end so that the re-read for the error text has to go all the way
+    big = "".join(c for _, c in pool.data_files(20000) if c.isascii())
+    long_line = "x = [" + ", ".join(str(i) for i in range(4000)) + "]\n"
+    for body in (big[:9000], big[:9000] * 8, "v = 1\n" * 1500, long_line):
+        body = body[: body.rfind("\n") + 1]
+        for tail in ("", "x = (1,\n 2 3)\n", "if a:\n", 's = """a\n'):
+            for sp in ("LF", "CRLF"):
+                cases.append({"config": "A", "content": worldb.respell(body + tail, sp), "encoding": "utf-8",
+                              "spelling": sp, "final_newline": True, "faults": [], "read_fault": None})
+    # configuration A, options: the same arguments on both sides
+    for ti, t in enumerate(texts):
+        if ti % 9 == 0:
+            for opts in ({"py_version": [3, 8]}, {"verbose": True}, {"py_version": [3, 6], "verbose": True}):
+                if opts.get("verbose") and len(t) > 80:
+                    continue
+                cases.append({"config": "A", "content": t, "encoding": "utf-8", "spelling": "LF",
+                              "final_newline": t.endswith("\n"), "faults": [], "read_fault": None, "opts": opts})
     # configuration B: storage faults
     for ti, t in enumerate(texts):
         rng = rng_for(SEED, PROP, "B", ti)
@@ -147,9 +165,12 @@ def run_pair(case: dict, env: worldb.SimEnv, scratch: str) -> dict:
     path = worldb.store(scratch, content)
     raw_exc = [None]
 
+    opts = case.get("opts") or {}
+    kw = {"py_version": tuple(opts["py_version"]) if opts.get("py_version") else None, "verbose": bool(opts.get("verbose"))}
+
     def file_side():
         try:
-            return kernel.canon_tree(XonshParser.parse_file(path))
+            return kernel.canon_tree(XonshParser.parse_file(path, **kw))
         except (worldb._Alarm, worldb._Budget, worldb._Stall):
             raise
         except BaseException as e:  # noqa: BLE001
@@ -158,7 +179,7 @@ def run_pair(case: dict, env: worldb.SimEnv, scratch: str) -> dict:
 
     def string_side():
         try:
-            return kernel.canon_tree(XonshParser.parse_string(content, mode="exec"))
+            return kernel.canon_tree(XonshParser.parse_string(content, mode="exec", **kw))
         except (worldb._Alarm, worldb._Budget, worldb._Stall):
             raise
         except BaseException as e:  # noqa: BLE001
@@ -259,6 +280,7 @@ def _child_main(ip: str, op: str) -> None:
     import warnings
 
     warnings.simplefilter("ignore")
+    worldb.PLAIN_NAMES = True
     with open(ip, "rb") as f:
         contents = pickle.load(f)
     scratch = tempfile.mkdtemp(prefix="vsim-c12c-")
